@@ -57,5 +57,11 @@ CHECKS = {
                  "touched only by append in publish() and popleft in the refill; each popped entry written exactly once; publish() never "
                  "window-rejected; refill triggered after append and after PUBACK/PUBCOMP removal.",
          "note": BASE_NOTE, "technique": "loop-idiom recognition with bound re-evaluation check + container-discipline (allowed operations) table"},
+ "C13": {"text": "Timer-handle typestate (NONE/PENDING/FIRED) per handle location and trigger context, using the lifecycle table: every removal "
+                 "from a timed window preceded by cancelling that request's alarm or in a context where no element can have a pending timer; "
+                 "alarm overwritten only when the old handle is not pending; loss closure stops/cancels and clears every handle location "
+                 "before IDLE on every path and arms only the onDisconnection notification; no timer callback leaves its own fired handle "
+                 "for later cancel(); keepalive loop started only under keepalive != 0. Silence over virtual time is not observed.",
+         "note": BASE_NOTE, "technique": "typestate analysis of timer handles over trigger contexts + lifecycle fact table"},
 }
 NOT_APPLICABLE = {}
